@@ -151,7 +151,11 @@ fn fwd(op: &Op, _ctx: &dyn Context, operands: &mut dyn CoordinateSet) -> usize {
                         deformation_with_length[3] = deformation.dot(deformation).sqrt();
                         operands.set_coord(i, &deformation_with_length);
                     } else {
-                        operands.set_coord(i, &(cart + deformation));
+                        // (the deformation is one of position: the time coordinate comes back
+                        // as given - adding a zero to it would turn -0.0 into +0.0)
+                        let mut deformed = cart + deformation;
+                        deformed[3] = cart[3];
+                        operands.set_coord(i, &deformed);
                     }
                     successes += 1;
 
@@ -207,7 +211,11 @@ fn inv(op: &Op, _ctx: &dyn Context, operands: &mut dyn CoordinateSet) -> usize {
                         deformation_with_length[3] = deformation.dot(deformation).sqrt();
                         operands.set_coord(i, &deformation_with_length);
                     } else {
-                        operands.set_coord(i, &(cart + deformation));
+                        // (the deformation is one of position: the time coordinate comes back
+                        // as given - adding a zero to it would turn -0.0 into +0.0)
+                        let mut deformed = cart + deformation;
+                        deformed[3] = cart[3];
+                        operands.set_coord(i, &deformed);
                     }
                     successes += 1;
 
